@@ -92,6 +92,7 @@ fn main() {
         "C02" => dispatch(checks::auth::C02, tier, seed, replay),
         "C03" => dispatch(checks::c03::C03, tier, seed, replay),
         "C05" => dispatch(checks::c05::C05, tier, seed, replay),
+        "C06" => dispatch(checks::c06::C06, tier, seed, replay),
         "C09" => dispatch(checks::c09::C09, tier, seed, replay),
         "C10" => dispatch(checks::c10::C10, tier, seed, replay),
         "C11" => dispatch(checks::c11::C11, tier, seed, replay),
